@@ -139,6 +139,39 @@ def run(ctx):
                                 if not near(got, want, 1.0 + max(map(abs, want)), 1e-12):
                                     ctx.fail(f"{backend}:{dim}D:{H.sysname(n1)}|{H.sysname(n2)}:{nm_}", f"{backend} {got} vs object {want}",
                                              {"A": A, "B": B})
+    # norm-ufunc lattice: abs, **2, sqrt, cbrt, power are functions of the norm on EVERY backend x flavor x dimension x system
+    with numpy.errstate(all="ignore"):
+        for dim in (2, 3, 4):
+            nrm = {2: "rho", 3: "mag", 4: "tau"}[dim]
+            for names in H.SYS[dim]:
+                rng = H.rng_for(ctx.seed, "C11ufunc", dim, names)
+                P = [H.from_cart(names, *H.cart_stratum(rng, "quadrants", dim)) for _ in range(3)]
+                norms = [float(getattr(H.obj(vector, names, q), nrm)) for q in P]
+                for mom in (False, True):
+                    cols = {(H.MOM.get(k_, k_) if mom else k_): numpy.array([q[k_] for q in P]) for k_ in names}
+                    for backend in ("numpy", "awkward"):
+                        if backend == "numpy":
+                            va = vector.array(cols)
+                            tl = lambda r: [float(v) for v in numpy.asarray(r)]  # noqa: E731
+                        else:
+                            va = vector.Array(ak.zip(cols))
+                            tl = lambda r: [float(v) for v in ak.to_list(r)]  # noqa: E731
+                        cat = {"abs": (lambda v: abs(v), lambda m: abs(m)), "np.absolute": (numpy.absolute, lambda m: abs(m)),
+                               "**2": (lambda v: v ** 2, lambda m: m * m), "np.square": (numpy.square, lambda m: m * m),
+                               "np.sqrt": (numpy.sqrt, lambda m: math.sqrt(abs(m))), "np.cbrt": (numpy.cbrt, lambda m: abs(m) ** (1 / 3)),
+                               "np.power3": (lambda v: numpy.power(v, 3), lambda m: m ** 3), "**3": (lambda v: v ** 3, lambda m: m ** 3)}
+                        for nm_, (f_, ref) in cat.items():
+                            n += 1
+                            distinct.add(("ufunc", nm_, backend, mom, dim, names))
+                            site_ = f"{backend}:{dim}D:{H.sysname(names)}:{'momentum' if mom else 'generic'}:{nm_}"
+                            try:
+                                got = tl(f_(va))
+                            except Exception as e:
+                                ctx.fail(site_, f"raises {type(e).__name__}: {e}"[:200], {"points": P})
+                                continue
+                            want = [ref(m) for m in norms]
+                            if not near(got, want, 1.0 + max(map(abs, want)), 1e-9):
+                                ctx.fail(site_, f"{nm_} of the array gives {got}, the same function of the norm ({nrm}) gives {want}", {"points": P})
     ctx.coverage["evaluations"] = n
     ctx.coverage["distinct_nontrivial"] = len(distinct)
     ctx.coverage["samples"] = samples
